@@ -11,7 +11,7 @@ NT(x) == [k |-> x.k, c |-> [i \in 1..Len(x.c) |-> NT(x.c[i])], d |-> D(x.d)]
 Clauses(e) ==
   IF e.k = "resolve" THEN
     LET all == Collect(NT(e.tree))  want == ResolveSpec(all) IN
-    << <<"C10:OnePerNameHighestVersionEarliestOnTiesNamesByFirstOccurrence", Ds(e.got) = want /\ Ds(e.gotRender) = want /\ Ds(e.gotDoc) = want>>,
+    << <<"C10:OnePerNameHighestVersionEarliestOnTiesNamesByFirstOccurrence", Ds(e.got) = want /\ Ds(e.gotRender) = want /\ Ds(e.gotDoc) = want /\ Ds(e.gotDocGrown) = want>>,
        <<"C10:DedupDisabledDropsAndReordersNothing", Ds(e.gotNoDedup) = all /\ Ds(e.gotTagifiedNoDedup) = all>>,
        <<"C10:ResolutionIsIdempotent", Ds(e.gotTwice) = Ds(e.got)>>,
        <<"DRIFT:ResolveCodeShape", Resolve(all) = Ds(e.got)>> >>
